@@ -206,6 +206,12 @@ Definition transmit (c : conn) : conn :=
   then discard (set_flags c (q_complete c) false false) EP_INITIAL
   else c.
 
+(* the CONNECTION_CLOSE packets go out in every epoch that has send keys: a client that can send a Handshake packet
+   discards the Initial keys here too *)
+Definition close_with (c : conn) (code : Z) : conn :=
+  let c1 := set_closed c code in
+  if q_client c1 && kget (q_sk c1) EP_HANDSHAKE then discard c1 EP_INITIAL else c1.
+
 Definition receive_packet (patched : bool) (c : conn) (ptype : Z) (frames : list (Z * list Z)) : pres * conn :=
   match q_closed c with
   | Some _ => (PIgnored, c)
@@ -216,15 +222,15 @@ Definition receive_packet (patched : bool) (c : conn) (ptype : Z) (frames : list
           if negb (kget (q_rk c) e) then (PDropped, c) else
           let c0 := if negb (q_client c) && (e =? EP_HANDSHAKE) then discard c EP_INITIAL else c in
           match frames with
-          | [] => (PClosed QEC_PROTOCOL_VIOLATION, set_closed c0 QEC_PROTOCOL_VIOLATION)
+          | [] => (PClosed QEC_PROTOCOL_VIOLATION, close_with c0 QEC_PROTOCOL_VIOLATION)
           | _ :: _ =>
               if negb (zin e crypto_frame_epochs)
-              then (PClosed QEC_PROTOCOL_VIOLATION, set_closed c0 QEC_PROTOCOL_VIOLATION)
+              then (PClosed QEC_PROTOCOL_VIOLATION, close_with c0 QEC_PROTOCOL_VIOLATION)
               else
                 match frames_loop patched e c0 frames with
                 | (FOk, c1) =>
                     (PDone, transmit (set_flags c1 (q_complete c1) (q_hs_ack c1 || (e =? EP_HANDSHAKE)) (q_hs_out c1)))
-                | (FClose code, c1) => (PClosed code, set_closed c1 code)
+                | (FClose code, c1) => (PClosed code, close_with c1 code)
                 | (FExn k, c1) => (PExn k, c1)
                 end
           end
